@@ -70,9 +70,16 @@ func init() {
 		"(encoding/binary.littleEndian).Uint32":    specLEGet(4),
 		"(encoding/binary.littleEndian).Uint64":    specLEGet(8),
 		"strings.HasPrefix": specBytesHasPrefix,
+		"slices.Delete":     specSlicesDelete,
 		"(*sync/atomic.Bool).Load":           specAtomicBool("Load"),
 		"(*sync/atomic.Bool).Store":          specAtomicBool("Store"),
 		"(*sync/atomic.Bool).CompareAndSwap": specAtomicBool("CompareAndSwap"),
+		"(*sync/atomic.Uint32).Load":  specAtomicInt("Load"),
+		"(*sync/atomic.Uint32).Store": specAtomicInt("Store"),
+		"(*sync/atomic.Uint64).Load":  specAtomicInt("Load"),
+		"(*sync/atomic.Uint64).Store": specAtomicInt("Store"),
+		"(*sync/atomic.Int64).Load":   specAtomicInt("Load"),
+		"(*sync/atomic.Int64).Store":  specAtomicInt("Store"),
 		"maps.Values": specMapsSeq(1),
 		"maps.Keys":   specMapsSeq(0),
 		"slices.Collect": specSlicesCollect,
@@ -592,5 +599,66 @@ func specLEGet(n int) specFn {
 		}
 		ty := map[int]types.Type{2: types.Typ[types.Uint16], 4: types.Typ[types.Uint32], 8: types.Typ[types.Uint64]}[n]
 		return Val{T: app("+", parts...), Ty: ty}
+	}
+}
+
+// slices.Delete(s, i, j): the elements before i, then the elements from j on.
+func specSlicesDelete(env *Env, recv *Val, args []Val, st *State, call *ast.CallExpr) Val {
+	c := env.c
+	sl, i, j := args[0], args[1], args[2]
+	s := env.sortOf(sl.Ty)
+	env.rangeAssume(st, sl)
+	ln := app("len_"+s, sl.T)
+	env.safety(st, "slice", and(app("<=", "0", i.T), app("<=", i.T, j.T), app("<=", j.T, ln)), call.Pos())
+	es := env.sortOf(elemOf(sl.Ty))
+	arr := c.fresh("deleted", fmt.Sprintf("(Array Int %s)", es))
+	q := c.freshBound("q")
+	st.assume(fmt.Sprintf("(forall ((%s Int)) (! (= (select %s %s) (ite (< %s %s) (select (arr_%s %s) %s) (select (arr_%s %s) (+ %s (- %s %s))))) :pattern ((select %s %s))))",
+		q, arr, q, q, i.T, s, sl.T, q, s, sl.T, q, j.T, i.T, arr, q))
+	// the same fact keyed on reads of the original slice (lets the solver find shifted witnesses)
+	st.assume(fmt.Sprintf("(forall ((%s Int)) (! (and (=> (< %s %s) (= (select %s %s) (select (arr_%s %s) %s))) (=> (>= %s %s) (= (select %s (- %s (- %s %s))) (select (arr_%s %s) %s)))) :pattern ((select (arr_%s %s) %s))))",
+		q, q, i.T, arr, q, s, sl.T, q, q, j.T, arr, q, j.T, i.T, s, sl.T, q, s, sl.T, q))
+	c.trust("slices.Delete(s,i,j) returns s[:i] followed by s[j:] (value semantics; the argument slice is not reused)")
+	return Val{T: app("mk_"+s, arr, app("-", ln, app("-", j.T, i.T))), Ty: sl.Ty}
+}
+
+// specAtomicInt models an atomic integer struct field x.f as the ghost field x.fVal.
+func specAtomicInt(op string) specFn {
+	return func(env *Env, recv *Val, args []Val, st *State, call *ast.CallExpr) Val {
+		c := env.c
+		sel, ok := unparen(call.Fun).(*ast.SelectorExpr)
+		var fsel *ast.SelectorExpr
+		if ok {
+			fsel, ok = unparen(sel.X).(*ast.SelectorExpr)
+		}
+		sig := types.Typ[types.Uint64]
+		if !ok {
+			c.unsupported("atomic integer not reached through a struct field")
+			return env.havoc(st, "atomic", sig)
+		}
+		base := env.eval(fsel.X, st)
+		_, sty, isPtr := structOf(env.subst(base.Ty))
+		if sty == nil || !isPtr {
+			c.unsupported("atomic integer field of a non-pointer struct")
+			return env.havoc(st, "atomic", sig)
+		}
+		c.trust("atomic integer fields are modelled as ghost integer fields <name>Val (sequentially consistent)")
+		key := env.structSortOf(base.Ty) + ".$" + fsel.Sel.Name + "Val"
+		h := env.heapTerm(st, key, "Int")
+		switch op {
+		case "Load":
+			var rt types.Type = sig
+			if !env.contract {
+				if t := env.pkg.info.TypeOf(call); t != nil {
+					rt = t
+				}
+			}
+			r := Val{T: app("select", h, base.T), Ty: rt}
+			env.rangeAssume(st, r)
+			return r
+		default:
+			st.heap[key] = app("store", h, base.T, args[0].T)
+			return Val{}
+		}
 	}
 }
